@@ -80,6 +80,16 @@ def tables():
     t["DEFAULT_IMAGE_MODE"] = C.image_mode
     t["PF_STRUCT"] = rfb.PixelFormat.STRUCT.format
     t["TYPE_LEN"] = sorted((int(k), int(v)) for k, v in loggingproxy.TYPE_LEN.items())
+    # framing constants read off the source text: every `self.expect(self._handleX, <integer literal>, ...)` in rfb.py
+    # (handler name, length).  Only literal lengths are listed: a length that is computed is the business of the
+    # correspondence run.  A handler expected with two different literals is listed twice (the theorem then fails).
+    import ast
+    sites = set()
+    for node in ast.walk(ast.parse(open(rfb.__file__.replace(".pyc", ".py")).read())):
+        if (isinstance(node, ast.Call) and isinstance(node.func, ast.Attribute) and node.func.attr == "expect" and len(node.args) >= 2
+                and isinstance(node.args[0], ast.Attribute) and isinstance(node.args[1], ast.Constant) and isinstance(node.args[1].value, int)):
+            sites.add((node.args[0].attr, int(node.args[1].value)))
+    t["EXPECT_CONST"] = sorted(sites)
     t["SUPPORTED_FORMATS"] = list(command.SUPPORTED_FORMATS)
     t["VMWARE_PATTERN"] = bytes(client.VMWareClient.SINGLE_PIXEL_UPDATE)
     t["HEADER"] = bytes(rfb.RFBClient._HEADER)
@@ -126,6 +136,7 @@ def render(t):
     w("def DEFAULT_IMAGE_MODE : String := " + lstr(t["DEFAULT_IMAGE_MODE"]))
     w("def PF_STRUCT : String := " + lstr(t["PF_STRUCT"]))
     w("def TYPE_LEN : List (Nat × Nat) := " + llist(["(%d, %d)" % kv for kv in t["TYPE_LEN"]], 8))
+    w("def EXPECT_CONST : List (String × Nat) := " + llist(["(%s, %d)" % (lstr(k), v) for k, v in t["EXPECT_CONST"]], 4))
     w("def SUPPORTED_FORMATS : List String := " + llist([lstr(s) for s in t["SUPPORTED_FORMATS"]], 8))
     w("def VMWARE_PATTERN : List UInt8 := " + llist(["%d" % b for b in t["VMWARE_PATTERN"]], 20))
     w("def HEADER : List UInt8 := " + llist(["%d" % b for b in t["HEADER"]], 20))
